@@ -110,6 +110,10 @@ lp_feasibility_set_int_t* lp_feasibility_set_int_new_copy(const lp_feasibility_s
 
 static
 void lp_feasibility_set_int_destruct(lp_feasibility_set_int_t* set) {
+  size_t i;
+  for (i = 0; i < set->size; ++ i) {
+    lp_integer_destruct(set->elements + i);
+  }
   lp_int_ring_detach(set->K);
   free(set->elements);
 }
@@ -213,7 +217,8 @@ void lp_feasibility_set_int_pick_value(const lp_feasibility_set_int_t* set, lp_i
     size_t pos = random() % set->size;
     lp_integer_assign(lp_Z, value, set->elements + pos);
   } else {
-    lp_integer_construct_from_int(lp_Z, value, 0);
+    // value is an already constructed output (as in the non-inverted case)
+    lp_integer_assign_int(lp_Z, value, 0);
     // check 0
     if (!lp_feasibility_set_int_find(set, value)) {
       return;
@@ -400,6 +405,9 @@ void lp_feasibility_set_int_invert(lp_feasibility_set_int_t *set) {
     }
   }
 
+  for (pos_old = 0; pos_old < set->size; ++ pos_old) {
+    lp_integer_destruct(old + pos_old);
+  }
   free(old);
   set->elements = new;
   set->size = cnt;
